@@ -289,6 +289,9 @@ def gen_not(rng, vocab, dirs):
         # a repetition that is the WHOLE pattern or a whole alternative (into_non_trivial looks at exactly these)
         ('<?:1,>', 'nonexh'), ('<[!.]:1,>', 'nonexh'), ('{<?:1,>,%s}' % n, 'nonexh'), ('<%s/**:1,>' % d, 'exh'), ('<?:1>', 'nonexh'), ('<?:2,>', 'nonexh'),
         ('{<%s:1,>}' % n, 'nonexh'), ('<<?:1,>:1>', 'nonexh'),
+        # exhaustive patterns whose matches END in a separator: they match `dir/`, which is the path of no entry, and not `dir`
+        (d + '/<*/>', 'exh-sep'), ('**/' + d + '/<*/:1,>', 'exh-sep'), (d + '/*/**', 'exh'), ('<*/>', 'exh-sep'), (d + '/<<?>/>', 'exh-sep'),
+        ('{%s/<*/>,*.md}' % d, 'mixed-sep'), ('**/' + d + '/', 'nonexh-sep'),
         # rooted patterns never match a root-relative path
         ('/**', 'rooted'), ('/' + d + '/**', 'rooted'), ('{/**,%s}' % n, 'rooted-mixed'), ('/**/' + n, 'rooted'),
     ]
